@@ -120,6 +120,19 @@ def _batch(modname, base_seed, tier, indices, explicit=None):
     return out
 
 
+def _trim(x, depth=0):
+    """Samples are written out for a reader; long lists are cut (the cut is marked)."""
+    if isinstance(x, dict):
+        return {k: _trim(v, depth + 1) for k, v in x.items() if not str(k).startswith("_")}
+    if isinstance(x, list):
+        if len(x) > 8 and depth > 0:
+            return [_trim(v, depth + 1) for v in x[:8]] + ["... %d more" % (len(x) - 8)]
+        return [_trim(v, depth + 1) for v in x]
+    if isinstance(x, str) and len(x) > 300:
+        return x[:300] + "...(%d chars)" % len(x)
+    return x
+
+
 def load_known():
     try:
         with open(KNOWN_FILE) as f:
@@ -358,7 +371,7 @@ def run_check(modname, tier="quick"):
             "evaluations": agg["n"],
             "distinct_nontrivial": len(agg["shapes"]),
             "rule": mod.RULE,
-            "samples": agg["samples"][:3],
+            "samples": [_trim(x) for x in agg["samples"][:3]],
             "exhaustive": bool(getattr(mod, "EXHAUSTIVE_SWEEP", False) and exhaustive_sweep),
             "sweep_cases": len(sweep),
             "counters_fired": dict(sorted(agg["counters"].items())),
